@@ -7,7 +7,16 @@ from common import gen, main, rng_of
 import optcommon as oc
 
 
-def trees_for(payload, for_search=False):
+def full_family():
+    """the deterministic input family of C02: every atom, its negation, and every (atom op atom) pair of the grid"""
+    mk = gen.scalar_atom_makers()
+    trees = [gen.mk(op, mk[a](), mk[b]()) for a in range(len(mk)) for b in range(len(mk)) for op in ("and", "or", "xor")]
+    for m in mk:
+        trees += [gen.mk("not", m()), m()]
+    return trees, gen.SCALAR_VALUES, False
+
+
+def trees_for(payload, for_search=False, flags=False):
     rng = rng_of(payload)
     thorough = payload["tier"] == "thorough" or (for_search and payload.get("deep"))
     mk = gen.scalar_atom_makers()
@@ -18,8 +27,11 @@ def trees_for(payload, for_search=False):
     for m in mk:
         trees.append(gen.mk("not", m()))
         trees.append(m())
+    n_family = len(trees)
     for _ in range(12000 if thorough else 1500):
         trees.append(gen.build(gen.random_shape(rng, len(mk), rng.choice([2, 3, 3, 4])), mk))
+    if flags:
+        return trees, [i < n_family for i in range(len(trees))]
     return trees
 
 
@@ -31,11 +43,13 @@ def correspondence(payload):
 
 
 def search(payload):
-    return oc.search(trees_for(payload, for_search=True), gen.SCALAR_VALUES, "C02", payload)
+    trees, family = trees_for(payload, for_search=True, flags=True)
+    return oc.search(trees, gen.SCALAR_VALUES, "C02", payload, family=family)
 
 
 def replay(payload):
     return oc.replay(payload)
 
 
-main({"correspondence": correspondence, "search": search, "replay": replay})
+if __name__ == "__main__":
+    main({"correspondence": correspondence, "search": search, "replay": replay})
